@@ -115,6 +115,10 @@ def tz_property(a, pid, driver, rule_text, extra=()):
         for z in zones[:8]:
             drive_and_validate(c, a, binary, driver, "Trace_Tz.tla", extra=ex + ["--zone", z], stem=f"{driver}-{len(c.mc_runs)}-{zones.index(z)}")
     else:
+        # Engine C: the operators of TzLookup.tla against their plain definitions on every zone of a tiny universe
+        cfg = "MC_TzLookup.cfg" if a.tier == "quick" else "MC_TzLookup_thorough.cfg"
+        r = tlc_mc("MC_TzLookup.tla", cfg, os.path.join(workdir(pid, False), "mc"))
+        c.add_mc(r)
         drive_and_validate(c, a, binary, driver, "Trace_Tz.tla", extra=ex)
     c.rule = TZ_RULE + rule_text
     c.assumptions = TRUSTED + ["the harness's independent TZif / POSIX TZ readers (tzread.rs; no jiff code)",
